@@ -131,6 +131,35 @@ def extra_reset(chk):
                     m = "a connection loss after the completed reset was reported %d times (expected exactly once)" % after
                 if m is not None and bad is None:
                     bad = ([str(e) for e in evs], m, mark)
+    # a reset that completes WITHOUT the link dropping (the NCP never disconnects - "external UART" - or the caller does
+    # not wait for it): the reset is over, so a later genuine loss is reported, exactly once
+    for how in ("reset", "reset_nowait"):
+        for pre in ([], [("issue", 1, "nb1"), ("ack", -1), ("rsp", "nb1")]):
+            evs = list(pre) + [(how,), ("ack", -1), ("tick", 1000), ("tick", 6000), ("tick", 1000)]
+            r = A.Runner()
+            try:
+                steps = []
+                for e in evs:
+                    if e == ("ack", -1):
+                        e = ("ack", r.proto._pack_seq)
+                    steps.append(r.step(e))
+                during = sum(st.count("L") for st in steps)
+                done = r.real_reset.done()
+                a1 = r.step(("lost",)).count("L") + r.step(("tick", 1000)).count("L")
+            finally:
+                r.close()
+            n += 1
+            chk.evaluations += 1
+            m = None
+            if during != 0:
+                m = "the application was told about a connection loss although the link never dropped"
+            elif not done:
+                m = "%s() did not complete although the disconnect wait had expired" % how
+            elif a1 != 1:
+                m = ("a connection loss AFTER a reset that had completed without a disconnect was reported %d times "
+                     "(expected exactly once)" % a1)
+            if m is not None and bad is None:
+                bad = ([str(e) for e in evs] + ["('lost',)"], m, len(evs))
     chk.oblige("monitor:real-reset-procedure-x-loss-at-every-point(%d)" % n, bad is None, json.dumps(bad)[:300] if bad else "")
     if bad:
         chk.violation(bad[1], {"events": bad[0], "loss_injected_at_index": bad[2]}, key="reset-loss")
